@@ -254,6 +254,27 @@ def _rule_cases():
         t.add_required_resource(w)
         t.add_required_resource(w)
     cases.append(("Task/same_resource_twice", twice, True))
+    # ... in every form: a worker has one busy interval per task (the library's own rule, enforced for the plain case above)
+    def sel(lst):
+        return ps.SelectWorkers(list_of_workers=lst, nb_workers_to_select=1)
+    forms = {
+        "direct_then_select": lambda t, w: (t.add_required_resource(w[0]), t.add_required_resource(sel([w[0], w[1]]))),
+        "select_then_direct": lambda t, w: (t.add_required_resource(sel([w[0], w[1]])), t.add_required_resource(w[0])),
+        "two_selections_sharing_a_worker": lambda t, w: (t.add_required_resource(sel([w[0], w[1]])), t.add_required_resource(sel([w[1], w[2]]))),
+        "cumulative_twice": lambda t, w: (t.add_required_resource(w[3]), t.add_required_resource(w[3])),
+    }
+    ok_forms = {
+        "two_disjoint_selections": lambda t, w: (t.add_required_resource(sel([w[0], w[1]])), t.add_required_resource(sel([w[2], ps.Worker(name="W9")]))),
+        "cumulative_and_worker": lambda t, w: (t.add_required_resource(w[3]), t.add_required_resource(w[0])),
+        "same_worker_two_tasks": lambda t, w: (t.add_required_resource(w[0]), ps.FixedDurationTask(name="T2", duration=1).add_required_resource(w[0])),
+        "list_of_resources": lambda t, w: t.add_required_resources([w[0], w[1], w[3]]),
+    }
+    for fname, f in list(forms.items()) + list(ok_forms.items()):
+        def thunk(f=f):
+            t = ps.FixedDurationTask(name="T", duration=1)
+            w = [ps.Worker(name=f"W{i}") for i in range(3)] + [ps.CumulativeWorker(name="CW", size=2)]
+            f(t, w)
+        cases.append((f"Task/worker_required_twice/{fname}", thunk, fname in forms))
     cases.append(("Task/non_resource_required", lambda: ps.FixedDurationTask(name="T", duration=1).add_required_resource("W"), True))
     return cases
 
